@@ -571,6 +571,9 @@ func (env *SpecEnv) loc(e ast.Expr) Loc {
 			if l.Kind == LArr {
 				return Loc{Kind: LElem, Root: at.Elem(), Arr: l.Arr, Idx: i, Ty: at.Elem()}
 			}
+			if er := embeddedArrayRef(l); er != nil {
+				return Loc{Kind: LElem, Root: at.Elem(), Arr: er, Idx: i, Ty: at.Elem()}
+			}
 			l.Path = append(append([]PathElem{}, l.Path...), PathElem{Idx: i})
 			l.Ty = at.Elem()
 			return l
@@ -647,6 +650,9 @@ func (env *SpecEnv) indexExpr(x *ast.IndexExpr) Value {
 			i := env.evalInt(x.Index)
 			if b.L.Kind == LArr {
 				return env.st.load(Loc{Kind: LElem, Root: at.Elem(), Arr: b.L.Arr, Idx: i, Ty: at.Elem()})
+			}
+			if er := embeddedArrayRef(b.L); er != nil {
+				return env.st.load(Loc{Kind: LElem, Root: at.Elem(), Arr: er, Idx: i, Ty: at.Elem()})
 			}
 			l := b.L
 			l.Path = append(append([]PathElem{}, l.Path...), PathElem{Idx: i})
